@@ -127,6 +127,7 @@ pub struct Shared {
     pub cut_eq: Cell<bool>,
     pub guards: RefCell<Vec<(GuardOwner, Rc<Cell<u32>>)>>,
     pub smuggle: Cell<bool>,
+    pub scenario_name: String,
     pub performed: RefCell<Vec<Performed>>,
 }
 
@@ -163,6 +164,7 @@ impl Shared {
             }
         };
         if fire {
+            exec::mark_inflight(&self.scenario_name);
             self.crashed.set(Some(at));
             panic!("injected crash in user function {at:?}");
         }
@@ -561,6 +563,7 @@ impl World {
             cut_eq: Cell::new(false),
             guards: RefCell::new(vec![]),
             smuggle: Cell::new(cfg.ops.observe_smuggled),
+            scenario_name: cfg.name.clone(),
             performed: RefCell::new(vec![]),
         });
         let mut w = World {
@@ -2381,6 +2384,9 @@ pub fn run_world(cfg: &WorldCfg) {
     });
     match r {
         Ok(()) => {
+            if cfg.mon.c12 || cfg.mon.c13 || cfg.mon.c04 {
+                exec::mark_inflight(&cfg.name);
+            }
             let r2 = catch(move || {
                 let mut w = ManuallyDrop::into_inner(w);
                 if w.cfg.mon.c12 {
